@@ -17,8 +17,8 @@ ghost('row_of', ['g', 'y', 'z'], """floor((g.bbox[3] - y) / (g.resolutions[z] * 
                                     else floor((y - g.bbox[1]) / (g.resolutions[z] * g.tile_size[1]))""")
 
 contract(G + 'TileGrid.flip_tile_coord', props=['C03', 'C02'],
-         types=dict(tile_coord='tuple[int,int,int]'), returns='tuple[int,int,int]',
-         requires=['grid_wf(self)', 'valid_level(self, tile_coord[2])'],
+         types=dict(tile_coord='tuple[int,int,int|str]'), returns='tuple[int,int,int|str]',
+         requires=['grid_wf(self)', 'level_ok(self, tile_coord[2])'],
          ensures=['result[0] == tile_coord[0] and result[2] == tile_coord[2]',
                   'result[1] == self.grid_sizes[tile_coord[2]][1] - 1 - tile_coord[1]',
                   # in-grid tiles stay in the grid
@@ -29,8 +29,8 @@ lemma('flip_involution', ['C03', 'C02'], doc='flip(flip(t)) == t for every grid 
       fn=lambda z3: ([], z3.ForAll([z3.Int('gh'), z3.Int('y')], z3.Int('gh') - 1 - (z3.Int('gh') - 1 - z3.Int('y')) == z3.Int('y'))))
 
 contract(G + 'TileGrid.tile_bbox', props=['C03', 'C01', 'C02', 'C04'],
-         types=dict(tile_coord='tuple[int,int,int]', limit='bool'), returns='tuple[real,real,real,real]',
-         requires=['grid_wf(self)', 'valid_level(self, tile_coord[2])', 'limit == False'],
+         types=dict(tile_coord='tuple[int,int,int|str]', limit='bool'), returns='tuple[real,real,real,real]',
+         requires=['grid_wf(self)', 'level_ok(self, tile_coord[2])', 'limit == False'],
          ensures=[
              'abs(result[0] - tb_x0(self, tile_coord[0], tile_coord[2])) <= 1e-12',
              'abs(result[2] - tb_x1(self, tile_coord[0], tile_coord[2])) <= 2e-12',
